@@ -6,8 +6,7 @@ For every memory `m`, head sentinel `h` and member list `l` with `Ring m h l` (f
 visits exactly `l`, in order, and returns to `h`; `prev` is the inverse; no node occurs twice):
 each `queue.h` function, executed as the pointer writes the C performs, yields a memory in which the ring
 holds the list the models compute.  No bound on the length of `l`; nodes outside the rings involved are
-arbitrary.  `uv__queue_add` is modelled (`Queue.add`) but has no theorem: its only caller is
-`src/unix/fsevents.c` (macOS).
+arbitrary.
 -/
 namespace UvModel.Queue
 
@@ -471,5 +470,134 @@ example : Two (move ex3 0 5) 0 5 [] [1, 2, 3] := detach_refines (by
   have h0 := init_ring ⟨fun _ => 99, fun _ => 99⟩ 0
   exact insertTail_ring (insertTail_ring (insertTail_ring h0 (q := 1) (by decide)) (q := 2) (by decide)) (q := 3) (by decide))
   (by decide)
+
+/-! ### self-linkedness as the membership flag
+`uv__io_start`/`uv__io_feed`/`uv__io_stop` test `uv__queue_empty(&w->watcher_queue)` /
+`(&w->pending_queue)` on the *member* node to know whether it is queued; that is sound because a queued
+node is never self-linked and every dequeue in those paths is `remove` followed by `init`. -/
+
+theorem member_not_empty {m : Mem} {h q : Nat} {l : List Nat} (hr : Ring m h l) (hq : q ∈ l) :
+    empty m q = false := by
+  obtain ⟨l1, l2, e⟩ := List.append_of_mem hq
+  subst e
+  obtain ⟨hl, hnd⟩ := hr
+  have e1 : h :: (l1 ++ q :: l2) ++ [h] = (h :: l1) ++ q :: (l2 ++ [h]) := by simp
+  rw [e1, linked_append] at hl
+  have hl2 := hl.2
+  simp only [List.nodup_cons, List.nodup_append, List.mem_append, List.mem_cons] at hnd
+  cases l2 with
+  | nil => simp at hl2; simp [empty, hl2.1]; grind
+  | cons a r => simp at hl2; simp [empty, hl2.1.1]; grind
+
+theorem dequeued_empty (m : Mem) (q : Nat) : empty (init (remove m q) q) q = true := by
+  simp [empty, init]
+
+example : empty ex3 2 = false ∧ empty (init (remove ex3 2) 2) 2 = true := by decide
+
+/-- `uv__queue_add(h, n)`: the members of `n` are appended to `h`, in order (an empty `n` leaves `h` as it
+is).  `n` itself is left stale.  (Only caller in libuv: `src/unix/fsevents.c`, macOS.) -/
+theorem add_ring {m : Mem} {h n : Nat} {lh ln : List Nat} (hh : Ring m h lh) (hn : Ring m n ln)
+    (hd : ∀ x ∈ h :: lh, x ∉ n :: ln) : Ring (add m h n) h (lh ++ ln) := by
+  obtain ⟨Ah, t, hA⟩ := snoc_decomp h lh
+  have hlh := hh.1
+  have e1 : h :: lh ++ [h] = Ah ++ t :: [h] := by
+    have : h :: lh ++ [h] = (h :: lh) ++ [h] := rfl
+    rw [this, hA]; simp
+  rw [e1, linked_append] at hlh
+  obtain ⟨hAt, hth⟩ := hlh
+  simp at hth
+  have htm : t ∈ h :: lh := by rw [hA]; simp
+  have hnd := hh.2
+  have hndn := hn.2
+  cases ln with
+  | nil =>
+    have hnn := hn.1; simp at hnn
+    have htn : t ≠ n := fun e => hd t htm (by simp [e])
+    have hhn : h ≠ n := fun e => hd h (by simp) (by simp [e])
+    simp only [List.append_nil]
+    apply ring_frame hh
+    · intro x hx
+      have : x ≠ n := fun e => hd x hx (by simp [e])
+      simp [add, hth, hnn]; grind
+    · intro x hx
+      have : x ≠ n := fun e => hd x hx (by simp [e])
+      simp [add, hth, hnn]; grind
+  | cons a r =>
+    obtain ⟨C, z, hC⟩ := snoc_decomp a r
+    have hln := hn.1
+    have e2 : n :: (a :: r) ++ [n] = [n] ++ a :: (r ++ [n]) := by simp
+    rw [e2, linked_append] at hln
+    obtain ⟨-, hln⟩ := hln
+    have e3 : a :: (r ++ [n]) = C ++ z :: [n] := by
+      have : a :: (r ++ [n]) = (a :: r) ++ [n] := rfl
+      rw [this, hC]; simp
+    have hna : m.next n = a ∧ m.prev a = n := by
+      have := hn.1; simp at this; exact this.1
+    rw [e3, linked_append] at hln
+    obtain ⟨hCz, hzn⟩ := hln
+    simp at hzn
+    have hzm : z ∈ a :: r := by rw [hC]; simp
+    have hdis : ∀ x ∈ h :: lh, x ≠ n ∧ x ∉ a :: r := by
+      intro x hx; have := hd x hx; simp only [List.mem_cons] at this ⊢; grind
+    have hdis2 : ∀ y ∈ a :: r, y ≠ n ∧ y ∉ h :: lh := by
+      intro y hy; refine ⟨?_, fun hx => (hdis y hx).2 hy⟩
+      intro e; rw [e] at hy; exact (List.nodup_cons.mp hndn).1 hy
+    have hNA : (Ah ++ [t]).Nodup := hA ▸ hnd
+    have hNC : (C ++ [z]).Nodup := by rw [← hC]; exact (List.nodup_cons.mp hndn).2
+    have htl1 : (Ah ++ [t]).tail = lh := by rw [← hA]; rfl
+    have htl2 : (C ++ [z]).tail = r := by rw [← hC]; rfl
+    refine ⟨?_, ?_⟩
+    · have e4 : h :: (lh ++ a :: r) ++ [h] = Ah ++ t :: (C ++ z :: [h]) := by
+        have : h :: (lh ++ a :: r) ++ [h] = (h :: lh) ++ ((a :: r) ++ [h]) := by simp
+        rw [this, hA, hC]; simp
+      rw [e4, linked_append]
+      have hAmem : ∀ x ∈ Ah, x ∈ h :: lh ∧ x ≠ t := by
+        intro x hx; refine ⟨by rw [hA]; simp [hx], ?_⟩
+        intro e; rw [e] at hx; simp only [List.nodup_append, List.mem_singleton] at hNA; grind
+      have hCmem : ∀ x ∈ C, x ∈ a :: r ∧ x ≠ z := by
+        intro x hx; refine ⟨by rw [hC]; simp [hx], ?_⟩
+        intro e; rw [e] at hx; simp only [List.nodup_append, List.mem_singleton] at hNC; grind
+      have hzt : z ≠ t := fun e => (hdis t htm).2 (e ▸ hzm)
+      have hzh : z ≠ h := fun e => (hdis h (by simp)).2 (e ▸ hzm)
+      have hah : a ≠ h := fun e => (hdis h (by simp)).2 (by simp [e])
+      constructor
+      · apply linked_frame _ hAt
+        · intro x hx; simp at hx
+          have := hAmem x hx; have := hdis x this.1
+          simp [add, hth, hna, hzn]; grind
+        · intro y hy; rw [htl1] at hy
+          have hy' : y ∈ h :: lh := by simp [hy]
+          have := hdis y hy'
+          have : y ≠ h := fun e => (List.nodup_cons.mp hnd).1 (e ▸ hy)
+          simp [add, hth, hna, hzn]; grind
+      · have e5 : t :: (C ++ z :: [h]) = [t] ++ a :: (r ++ [h]) := by
+          have : C ++ z :: [h] = (C ++ [z]) ++ [h] := by simp
+          rw [this, ← hC]; simp
+        rw [e5, linked_append]
+        have e6 : a :: (r ++ [h]) = C ++ z :: [h] := by
+          have : a :: (r ++ [h]) = (a :: r) ++ [h] := rfl
+          rw [this, hC]; simp
+        refine ⟨?_, ?_⟩
+        · have hta : t ≠ a := fun e => (hdis t htm).2 (by simp [e])
+          simp [add, hth, hna, hzn]; grind
+        · rw [e6, linked_append]
+          constructor
+          · apply linked_frame _ hCz
+            · intro x hx; simp at hx
+              have := hCmem x hx; have := hdis2 x this.1
+              simp [add, hth, hna, hzn]; grind
+            · intro y hy; rw [htl2] at hy
+              have hy' : y ∈ a :: r := by simp [hy]
+              have := hdis2 y hy'
+              have : y ≠ a := fun e => (List.nodup_cons.mp (List.nodup_cons.mp hndn).2).1 (e ▸ hy)
+              simp [add, hth, hna, hzn]; grind
+          · simp [add, hth, hna, hzn]; grind
+    · have : h :: (lh ++ a :: r) = (h :: lh) ++ (a :: r) := rfl
+      rw [this, List.nodup_append]
+      refine ⟨hnd, (List.nodup_cons.mp hndn).2, ?_⟩
+      intro x hx y hy e; subst e; exact (hdis x hx).2 hy
+
+example : foreach (add (init (init ex3 5) 6) 5 0) 5 9 = [1, 2, 3] := by decide
+example : foreach (add (init ex3 5) 0 5) 0 9 = [1, 2, 3] := by decide   -- adding an empty ring
 
 end UvModel.Queue
